@@ -224,8 +224,14 @@ def render_transition(prog, t, assign=None):
     src, dst = t["src"], t["dst"]
     kw = []
     names = prog.get("event_names") or {}
+    decl = prog.get("event_decl") or []
     if not assign:
-        if any(e in names for e in t["events"]):
+        if any(e in decl for e in t["events"]):
+            # events declared as stand-alone ``Event()`` attributes are passed as objects
+            parts = [e if e in decl else (f"Event({e!r}, name={names[e]!r})" if e in names else repr(e))
+                     for e in t["events"]]
+            kw.append("event=" + (parts[0] if len(parts) == 1 else "[" + ", ".join(parts) + "]"))
+        elif any(e in names for e in t["events"]):
             # explicit Event objects: the display name is independent of the identifier
             parts = [f"Event({e!r}, name={names[e]!r})" if e in names else repr(e) for e in t["events"]]
             kw.append("event=[" + ", ".join(parts) + "]")
@@ -274,6 +280,9 @@ def render_machine(prog, base_name=None):
             kw.append(f"exit={_names(s['exit'], prog)}")
         lines.append(f"    {s['id']} = State({', '.join(kw)})")
     body = []
+    for e in prog.get("event_decl") or []:
+        label = (prog.get("event_names") or {}).get(e)
+        body.append(f"    {e} = Event(" + (f"name={label!r}" if label else "") + ")\n")
     for t in prog["trans"]:
         if t.get("inherited"):
             continue
